@@ -146,7 +146,7 @@ def run(ctx):
                         "predecessors that count = Chess.wfB: accepted unchanged by the FEN reader, origin of a double push empty, piece counts reachable by promotions (the positions knownInvalid does not reject)",
                         "Q itself is a position reached in a legal game or accepted by the FEN reader with a well-shaped e.p. square"]
     # 1. triples from random games: completeness predicate on the implementation
-    n_games, plies = (110, 120) if quick else (9500, 140)
+    n_games, plies = (420, 60) if quick else (36000, 70)
     tri = gen_triples(ctx, vh, n_games, plies)
     tl = [f"rev tri {m} {p}" for p, m, q in tri]
     ok, out, err = par_lines(vh, tl)
